@@ -15,6 +15,7 @@ type Lexer struct {
 	hadNewline    bool // newline was seen before current token
 	lastNewLine   int  // position just after most recent newline
 	lineNumber    int
+	unterminated  bool // the input ended inside a string literal
 }
 
 // Mode with input expected the be complete (multiline/file).
@@ -37,6 +38,11 @@ func (l *Lexer) EOLEOF() *token.Token {
 		return token.EOLT
 	}
 	return token.EOFT
+}
+
+// Unterminated returns true when the input ended inside a string literal.
+func (l *Lexer) Unterminated() bool {
+	return l.unterminated
 }
 
 func (l *Lexer) Pos() int {
@@ -113,6 +119,7 @@ func (l *Lexer) NextToken() *token.Token {
 	case '"', '`':
 		str, ok := l.readString(ch)
 		if !ok {
+			l.unterminated = true
 			return l.EOLEOF()
 		}
 		return token.Intern(token.STRING, str)
